@@ -781,7 +781,7 @@ class Pile(Widget, WidgetContainerMixin, WidgetContainerListContentsMixin):
                 elif Sizing.FLOW in w_sizing:
                     rows_numbers.append(w.rows((maxcol,), focus=focused))
                 elif Sizing.FIXED in w_sizing and f == WHSettings.PACK:
-                    rows_numbers.append(w.pack((), focused)[0])
+                    rows_numbers.append(w.pack((), focused)[1])
                 else:
                     warnings.warn(
                         f"Unusual widget {i} sizing {w_sizing} for {f.upper()}). "
